@@ -100,11 +100,13 @@ func shapeOf(p string) string {
 // ---------------------------------------------------------------------------
 // generators for names and patterns
 
-var nameTokens = []string{"x", "y", "a", "A", "X", "b", "::", "::", ":", "*", "-", "latest"}
-var coreTokens = []string{"x", "y", "a", "A", "X", "b", "::", "::", ":", "-", "latest"}
+// ("/" and "." occur in real model names: meta-llama/Llama-3-8B-Instruct, hf.co/org/name, v1.5; "?" and "[" are
+// ordinary characters of the documented semantics, though special to shell-style matchers)
+var nameTokens = []string{"x", "y", "a", "A", "X", "b", "::", "::", ":", "*", "-", "latest", "/", "/", ".", "?", "["}
+var coreTokens = []string{"x", "y", "a", "A", "X", "b", "::", "::", ":", "-", "latest", "/", ".", "?", "["}
 
 func genName(t *rapid.T) string {
-	k := rapid.IntRange(1, 4).Draw(t, "ntok")
+	k := rapid.IntRange(1, 6).Draw(t, "ntok")
 	var sb strings.Builder
 	for i := 0; i < k; i++ {
 		sb.WriteString(rapid.SampledFrom(nameTokens).Draw(t, "tok"))
